@@ -365,7 +365,7 @@ def run(ctx):
                         break
         if len(ops) >= 2 and f[2][0] in "[{Z":
             distinct.add(hashlib.sha1((f[1] + f[2] + f[4]).encode()).hexdigest())
-        for k in r["known"]:
+        for k in (r["known"] or []):
             known_hit[k] += 1
             known_example.setdefault(k, {"case_line": line, "ops": ops[:80]})
         if cid in corpus_ids and cid in WITNESS:
